@@ -205,3 +205,21 @@ Example C03_ex_checker_rejects_missing_clear :
        p_book_extra := [];
        p_body := Blk [] (SCons (SPush "_b2" None (CInt 2)) (SCons (SFill "tree(""t"")->Fill();") SNil)) |} = false.
 Proof. vm_compute. reflexivity. Qed.
+
+(* ---------- for ALL queries of fragment F1 (Model/FragQuery.v, text-identical to the implementation) ---------- *)
+(* The tree the emitted job books has exactly the columns of the query's final expression, in order (dict keys /
+   given names / positional defaults are the names the harness passes, compared with the implementation's on every
+   run), each of the column's type - scalar columns the type of the expression, vector columns std::vector of the
+   element type - and each bound to its own class member; that those members are exactly what the per-event code
+   sets and fills is C01_query_job. *)
+From FV Require Import Model.FragTranslate Model.FragQuery Proofs.FragQueryProofs.
+Theorem C03_fragment_schema :
+  forall (bk : FragTranslate.backend) (q : query) (n0 : nat),
+  let p := prog_q bk q n0 in
+  map br_name (p_branches p) = bnames (q_body q) /\
+  map m_type (p_members p) = btypes (q_body q) /\
+  map br_var (p_branches p) = map m_name (p_members p) /\
+  map m_name (p_members p) = bmems (q_body q) (body_start q n0) /\
+  p_tree p = b_tree bk.
+Proof. exact frag_schema. Qed.
+Print Assumptions C03_fragment_schema.
